@@ -1,5 +1,6 @@
 (* C12 — Linear extraction equals per-file extraction and notices truncation.
    Only statements, `exact`, `Check` pins, `Print Assumptions` and non-vacuity examples. *)
+From MLA Require Import Limit.
 From MLA Require Import Base Stream Blocks Writer Reader Inst Run LinearProofs.
 From MLA.Concrete Require Sha256.
 From MLAGen Require Src.
@@ -28,7 +29,7 @@ Proof. exact linear_only_chosen. Qed.
 Definition ex_ops : list (wop) :=
   [OStart [97]; OStart [98]; OAppend 0 3 [1; 2; 3]; OAppend 1 2 [9; 8]; OAppend 0 2 [4; 5]; OEnd 0; OEnd 1; OFinalize].
 Definition ex_body : bytes :=
-  w_out (fst (wrun 48 Src.BT_FileStart Src.BT_FileContent Src.BT_EndOfArchiveData Src.BT_EndOfFile
+  w_out (fst (wrun (LIM := Src.BINCODE_MAX_DESERIALIZE_prod) 48 Src.BT_FileStart Src.BT_FileContent Src.BT_EndOfArchiveData Src.BT_EndOfFile
                    Sha256.sha256 (fun f => f) w_init ex_ops)).
 Example C12_example :
   hist_plain consts_verif ex_body [[97]; [98]] [[4; 1]] = [[0]; [0]; [6; 9; 8]; [88]].
@@ -78,7 +79,7 @@ Proof. exact lx_walk. Qed.
 (* 1-3: it succeeds; each chosen file of the archive receives exactly the bytes written for it
    (= what get_file + reads return, C01_get_file), a file not chosen receives nothing, a chosen
    name the archive lacks receives nothing, and every piece goes to a chosen name *)
-Theorem C12_linear_delivers_written :
+Theorem C12_linear_delivers_written {LIM : Limit} :
   forall FNMAX TS TC TA TE (H : bytes -> bytes) (order : footer -> footer),
   tags_distinct TS TC TA TE -> (forall x, len (H x) = 32) ->
   forall ops sf rs,
@@ -99,7 +100,7 @@ Proof. exact linear_roundtrip. Qed.
    writer of a chosen file received is the result of get_file on that name followed by reads
    to the end with any positive buffer sizes (r2: any reader state over the archive, e.g. the
    one before or the one after the linear extraction), and get_file's size is its length *)
-Theorem C12_linear_equals_per_file :
+Theorem C12_linear_equals_per_file {LIM : Limit} :
   forall FNMAX TS TC TA TE (H : bytes -> bytes) (order : footer -> footer),
   tags_distinct TS TC TA TE -> (forall x, len (H x) = 32) -> (forall f, Permutation (order f) f) ->
   forall ops sf rs,
@@ -123,7 +124,7 @@ Proof. exact linear_equals_per_file. Qed.
    the writer accepts any part (>= 1 byte) of each write and reports interruptions at will
    (good_sched, as C13_write_all_sched): every write_all returns Ok and the writer ends up
    holding exactly the file's bytes behind whatever it held before *)
-Theorem C12_linear_any_sink :
+Theorem C12_linear_any_sink {LIM : Limit} :
   forall FNMAX TS TC TA TE (H : bytes -> bytes) (order : footer -> footer),
   tags_distinct TS TC TA TE -> (forall x, len (H x) = 32) ->
   forall ops sf rs,
@@ -168,7 +169,7 @@ Example C12_linear_nonvacuous_applies :
     (forall name, ~ In name (map fst (started 0 RoundTripInst.ex_ops)) -> delivered name out = []).
 Proof. exact LinearRoundTripInst.lx_ex_applies. Qed.
 Example C12_linear_nonvacuous_reader :
-  exists r, ropen RoundTripInst.ex_S RoundTripInst.ex_s0 = Ok r /\
+  exists r, ropen (LIM := Src.BINCODE_MAX_DESERIALIZE_prod) RoundTripInst.ex_S RoundTripInst.ex_s0 = Ok r /\
             RS RoundTripInst.ex_order RoundTripInst.ex_sf RoundTripInst.ex_S RoundTripInst.ex_R r.
 Proof. exact RoundTripInst.ex_open_applies. Qed.
 (* ... and evaluated (open, then extraction): strict subsets, a name the archive lacks, the
@@ -281,8 +282,8 @@ Theorem C12_tie_ok_needs_marker_src : ltac:(let t := type of SrcTie3Linear.C12_o
 Proof. exact SrcTie3Linear.C12_ok_needs_marker_src. Qed.
 Theorem C12_tie_only_chosen_src : ltac:(let t := type of SrcTie3Linear.C12_only_chosen_src in exact t).
 Proof. exact SrcTie3Linear.C12_only_chosen_src. Qed.
-Theorem C12_tie_linear_delivers_written_src : ltac:(let t := type of SrcTie3Linear.C12_linear_delivers_written_src in exact t).
-Proof. exact SrcTie3Linear.C12_linear_delivers_written_src. Qed.
+Theorem C12_tie_linear_delivers_written_src : ltac:(let t := type of @SrcTie3Linear.C12_linear_delivers_written_src in exact t).
+Proof. exact @SrcTie3Linear.C12_linear_delivers_written_src. Qed.
 Theorem C12_tie_stream_writer_write_src : ltac:(let t := type of SrcTie3Linear.stream_writer_write_src in exact t).
 Proof. exact SrcTie3Linear.stream_writer_write_src. Qed.
 Theorem C12_tie_stream_writer_flush_src : ltac:(let t := type of SrcTie3Linear.stream_writer_flush_src in exact t).
